@@ -189,7 +189,7 @@ func TestC18Seq(t *testing.T) {
 		Extra: []ExtraAction{{Name: "GetSubDocRaw", Weight: 5, Gen: genGetSubDoc}},
 	}
 	seqProperty(t, "C18", "TestC18Seq", pr, 2000,
-		"rapid histories weighted to WriteSubDoc / SubdocInsert with generated dotted paths (present / absent leaf, absent parent, through non-objects, refused syntax), values (incl. empty = remove), CAS classes, on object / non-object / raw / deleted / absent documents, compared with a parse-edit-marshal reference; non-trivial = a successful write at a nested path (>= 2 components) into a document with >= 3 sibling properties, or any refused sub-document write on an existing document; distinct by <op, prior class, CAS class, outcome> sequence",
+		"rapid histories weighted to WriteSubDoc / SubdocInsert with generated dotted paths (present / absent leaf, absent parent, through non-objects, refused syntax), values (incl. empty = remove), CAS classes, on object / non-object / raw / deleted / absent documents, compared with a parse-edit-marshal reference; GetSubDocRaw steps compare the addressed property (and up to two more) with the same reference and keep the returned bytes, which must still be the same after later steps; non-trivial = a successful write at a nested path (>= 2 components) into a document with >= 3 sibling properties, or any refused sub-document write on an existing document; distinct by <op, prior class, CAS class, outcome> sequence",
 		func(r *Run) bool {
 			for _, tr := range r.Trace {
 				if !isDocOp(tr) || !family(tr.Op).subdoc {
@@ -254,7 +254,7 @@ func TestC09Seq(t *testing.T) {
 		Extra: []ExtraAction{{Name: "CpDump", Weight: 2, Gen: genCpDump}, {Name: "StartFeed", Weight: 2, Gen: genStartFeed}, {Name: "StopFeed", Weight: 1, Gen: genStopFeed}},
 	}
 	seqProperty(t, "C09", "TestC09Seq", pr, 1500,
-		"rapid histories over all entry points followed / interleaved by dump feeds from generated start CAS values (0, a document's CAS, one above, one below, max); the events between the markers are compared with the model (one per key with CAS >= start, CAS order, every field) and with the datatype learnt from the live event of the same version; non-trivial = a backfill whose start CAS cuts strictly inside the history and whose collection holds at least one tombstone with xattrs or one document with an expiry; distinct by <op, prior class, CAS class, outcome> sequence",
+		"rapid histories over all entry points followed / interleaved by dump feeds from generated start CAS values (0, a document's CAS, one above, one below, max), by checkpointed dump feeds (resumed or with a named start) and by live feeds that start with a backfill from 0 or a named CAS and must then deliver every later mutation; the events between the markers are compared with the model (one per key with CAS >= start, CAS order, every field) and with the datatype learnt from the live event of the same version; non-trivial = a backfill whose start CAS cuts strictly inside the history and whose collection holds at least one tombstone with xattrs or one document with an expiry; distinct by <op, prior class, CAS class, outcome> sequence",
 		func(r *Run) bool {
 			inside := false
 			for _, tr := range r.Trace {
